@@ -487,7 +487,7 @@ def r6_bookkeeping(ctx):
             N_sites += 1
             b = astx.bind_args(c, rc_f.params)
             x = b.get(rc_f.params[0])
-            x = _singleton_pick_base(prog, f, x)
+            x = _singleton_pick_base(prog, f, elect.flatten_base(x, f.node) if isinstance(x, (ast.List, ast.Tuple, ast.Set)) else x)
             k = N.key(elect.flatten_base(x, f.node))
             if k in recorded:
                 ctx.ok(f, c, f"removed candidates = recorded {recorded[k]}", f"remove_cand({astx.u(x)[:60]}, ...) ; recorded from `{k}`")
@@ -497,7 +497,9 @@ def r6_bookkeeping(ctx):
         # STV-style candidate tuple: set(profile.candidates).difference(<flatten(X)>) must use the same X
         for d in astx.calls_in(f.node, "difference"):
             if isinstance(d.func, ast.Attribute) and "candidates" in astx.u(d.func.value) and d.args:
-                k = N.key(elect.flatten_base(d.args[0], f.node))
+                a0 = d.args[0]
+                a0 = _singleton_pick_base(prog, f, elect.flatten_base(a0, f.node) if isinstance(a0, (ast.List, ast.Tuple, ast.Set)) else a0)
+                k = N.key(elect.flatten_base(a0, f.node))
                 ctx.check(k in recorded, f, d, "remaining candidate tuple = previous candidates minus the recorded group",
                           f"difference({k})", f"candidates removed from the tuple (`{k}`) are not the recorded group {sorted(recorded)}")
     ctx.note(f"R6 examined {N_sites} remove_cand sites in rule classes")
